@@ -4,6 +4,7 @@ use rustls::{pki_types::CertificateDer, ServerConfig};
 use std::io;
 use std::io::prelude::*;
 
+#[cfg(not(feature = "verif-hooks"))]
 const U24_MAX: usize = 16_777_215;
 
 pub struct PacketConn<RW: Read + Write> {
@@ -25,6 +26,9 @@ pub struct PacketConn<RW: Read + Write> {
 impl<W: Read + Write> Write for PacketConn<W> {
     fn write(&mut self, buf: &[u8]) -> io::Result<usize> {
         use std::cmp::min;
+        #[cfg(feature = "verif-hooks")]
+        #[allow(non_snake_case)]
+        let U24_MAX = crate::verif::packet_limit();
         let left = min(buf.len(), U24_MAX - self.to_write.len());
         self.to_write.extend(&buf[..left]);
 
@@ -147,6 +151,14 @@ impl<R: Read + Write> PacketConn<R> {
 }
 
 pub fn fullpacket(i: &[u8]) -> nom::IResult<&[u8], (u8, &[u8])> {
+    #[cfg(feature = "verif-hooks")]
+    #[allow(non_snake_case)]
+    let U24_MAX = crate::verif::packet_limit();
+    #[cfg(feature = "verif-hooks")]
+    let verif_tag = [U24_MAX as u8, (U24_MAX >> 8) as u8, (U24_MAX >> 16) as u8];
+    #[cfg(feature = "verif-hooks")]
+    let (i, _) = nom::bytes::complete::tag(&verif_tag[..])(i)?;
+    #[cfg(not(feature = "verif-hooks"))]
     let (i, _) = nom::bytes::complete::tag(&[0xff, 0xff, 0xff])(i)?;
     let (i, seq) = nom::bytes::complete::take(1u8)(i)?;
     let (i, bytes) = nom::bytes::complete::take(U24_MAX)(i)?;
